@@ -120,6 +120,41 @@ def mustacheCfg : Cfg :=
     symbols := addSyms SymTab.empty
       [("{{", TT.symbol), ("}}", TT.symbol), ("{{{", TT.symbol), ("}}}", TT.symbol)] }
 
+/-! ### user configuration of a constructed tokenizer
+
+`SetCharacterState` / `ClearCharacterStates` on the tokenizer, `SetWordChars` / `ClearWordChars` on its
+word state, `SetWhitespaceChars` / `ClearWhitespaceChars` on its whitespace state and `Add` on its symbol
+state. A `nil` state is `none`. -/
+
+inductive CfgOp where
+  | state (lo hi : Nat) (st : Option StateId)
+  | clearStates
+  | wordChars (lo hi : Nat) (enable : Bool)
+  | clearWordChars
+  | wsChars (lo hi : Nat) (enable : Bool)
+  | clearWsChars
+  | symbol (v : List Rune) (typ : Nat)
+  deriving Repr
+
+/-- the inputs on which the Go setter does not panic (`AddInterval`'s range check) -/
+def CfgOp.ok : CfgOp → Bool
+  | .state lo hi _ => CharMap.addOk lo hi
+  | .wordChars lo hi _ => CharMap.addOk lo hi
+  | .wsChars lo hi _ => CharMap.addOk lo hi
+  | .symbol v _ => !v.isEmpty
+  | _ => true
+
+def Cfg.configure (cfg : Cfg) : CfgOp → Cfg
+  | .state lo hi st => { cfg with dispatch := cfg.dispatch.add lo hi st }
+  | .clearStates => { cfg with dispatch := CharMap.empty }
+  | .wordChars lo hi en => { cfg with wordChars := setChars cfg.wordChars lo hi en }
+  | .clearWordChars => { cfg with wordChars := CharMap.empty }
+  | .wsChars lo hi en => { cfg with wsChars := setChars cfg.wsChars lo hi en }
+  | .clearWsChars => { cfg with wsChars := CharMap.empty }
+  | .symbol v t => { cfg with symbols := cfg.symbols.add v t }
+
+def Cfg.configureAll (cfg : Cfg) (ops : List CfgOp) : Cfg := ops.foldl Cfg.configure cfg
+
 /-! ### state dispatch -/
 
 def symState (cfg : Cfg) (fuel : Nat) (s : Scanner) : Tok × Scanner :=
@@ -282,6 +317,28 @@ def drain (cfg : Cfg) (o : Opts) : Nat → TState → List Tok
 /-- TokenizeBuffer on a fresh reader -/
 def tokenize (cfg : Cfg) (o : Opts) (content : List Rune) : List Tok :=
   drain cfg o (content.length + 3) (TState.start content)
+
+/-! ### misuse of the C comment state
+
+`CCommentState.NextToken` panics ("Incorrect usage of CppCommentState") when the character it is handed is
+not '/'. The built-in expression table hands it only '/', (`Props/C17.lean: builtin_never_misused`); a user
+configuration can hand it other characters, and tokenizing then panics at the first such token start. -/
+
+def Cfg.misuse (cfg : Cfg) (c : Rune) : Bool :=
+  cfg.kind == .expression && cfg.dispatch.lookup c == some .comment && c != 47
+
+/-- does the segmentation reach a token start at which the comment state is misused? -/
+def misuseAt (cfg : Cfg) : Nat → Scanner → Bool
+  | 0, _ => false
+  | f+1, s =>
+    match s.peek with
+    | none => false
+    | some c => cfg.misuse c || misuseAt cfg f (rawNext cfg c s).2
+
+/-- `TokenizeBuffer` of a (possibly user-configured) tokenizer: `none` = the explicit panic -/
+def tokenizeChecked (cfg : Cfg) (o : Opts) (content : List Rune) : Option (List Tok) :=
+  if misuseAt cfg (content.length + 2) (Scanner.new content) then none
+  else some (tokenize cfg o content)
 
 /-! ### SPEC side of C15: the raw (option-free, Eof-less) segmentation and the one-pass
 post-processing that the options amount to. -/
